@@ -259,6 +259,15 @@ def _time_tabulate(ctx) -> None:
                 du = d // _dt.timedelta(microseconds=1)
                 check("__add__", f"Time({t}) + {d!r}", lambda: w.call(x(), "__add__", [d]), ("time", tod(us(t) + du)))
                 check("__sub__", f"Time({t}) - {d!r}", lambda: w.call(x(), "__sub__", [d]), ("time", tod(us(t) - du)))
+            # a pendulum Duration is a timedelta too: its native days / seconds / microseconds are the length, its hours / minutes / remaining_seconds
+            # the breakdown of the same length - counting both doubles the amount
+            for d in (_dt.timedelta(minutes=1), _dt.timedelta(hours=2, minutes=3, seconds=4, microseconds=5), _dt.timedelta(seconds=59, microseconds=999999)):
+                du = d // _dt.timedelta(microseconds=1)
+                pd = minieval.Stub(_kind="Duration", _types=(_dt.timedelta,), _native=d, _us=du, days=d.days, seconds=d.seconds, microseconds=d.microseconds, hours=d.seconds // 3600,
+                                   minutes=d.seconds % 3600 // 60, remaining_seconds=d.seconds % 60, remaining_days=0, weeks=0, years=0, months=0, total_seconds=d.total_seconds,
+                                   in_seconds=lambda d_=d: int(d_.total_seconds()))
+                check("__add__", f"Time({t}) + Duration({d})", lambda: w.call(x(), "__add__", [pd]), ("time", tod(us(t) + du)))
+                check("__sub__", f"Time({t}) - Duration({d})", lambda: w.call(x(), "__sub__", [pd]), ("time", tod(us(t) - du)))
             for d in (_dt.timedelta(days=1), _dt.timedelta(days=-1, hours=1), _dt.timedelta(days=2, microseconds=1)):
                 check("__add__", f"Time({t}) + {d!r}", lambda: w.call(x(), "__add__", [d]), ("raise", "TypeError"))
                 check("__sub__", f"Time({t}) - {d!r}", lambda: w.call(x(), "__sub__", [d]), ("raise", "TypeError"))
